@@ -103,6 +103,8 @@ func locsV2(path string, a types.AttributeValue, out *[]pokeLoc) {
 		*out = append(*out, pokeLoc{path + ".N", "N-target", func() func() { old := x.Value; x.Value = "424242"; return func() { x.Value = old } }})
 	case *types.AttributeValueMemberBOOL:
 		*out = append(*out, pokeLoc{path + ".BOOL", "BOOL-target", func() func() { old := x.Value; x.Value = !old; return func() { x.Value = old } }})
+	case *types.AttributeValueMemberNULL:
+		*out = append(*out, pokeLoc{path + ".NULL", "NULL-target", func() func() { old := x.Value; x.Value = !old; return func() { x.Value = old } }})
 	case *types.AttributeValueMemberB:
 		if len(x.Value) > 0 {
 			*out = append(*out, pokeLoc{path + ".B[0]", "B-byte", func() func() { x.Value[0] ^= 0xff; return func() { x.Value[0] ^= 0xff } }})
